@@ -277,8 +277,8 @@ func (e *Enc) call(v *ssa.Call, c *ssa.CallCommon) {
 	}
 	if ci.spec == nil && !ci.inRepo {
 		w.externals[ci.key] = true
-		if e.spec != nil && e.spec.Closed && ci.kind != "dynamic" {
-			e.oblige("closed", "closed/uncontracted-call("+ci.key+")@"+e.siteLabel(), "false", nil, "the contract of this function is closed: every function it calls must have a contract; "+ci.key+" has none")
+		if e.spec != nil && e.spec.Closed && ci.kind != "dynamic" && !e.valueOnly(&ci) {
+			e.oblige("closed", "closed/uncontracted-call("+ci.key+")@"+e.siteLabel(), "false", nil, "the contract of this function is closed: every function it calls must have a contract (functions of plain values - no pointers, slices, maps or interfaces in or out - are exempt: they cannot touch state); "+ci.key+" has none")
 		}
 	}
 	if pure && nres > 0 {
